@@ -2,7 +2,6 @@
 #pragma once
 #include "../common/hv.h"
 #include <igris/protocols/gstuff.h>
-#include <igris/util/crc.h>
 #include <algorithm>
 
 using namespace hv;
@@ -144,6 +143,9 @@ static inline trace feed_stream(const std::string &codec, unsigned cap, const by
             t.packets.push_back(bytes((const uint8_t *)l, (const uint8_t *)l + r.size()));
         }
     }
+    // round 3b: cstr() at capacity 0, at the end of the stream (theorem cstr_any_time): the guard of
+    // sline_getline must keep the terminator out of the zero-length region (ASan sees a store)
+    if (cap == 0) (void)r.cstr();
     return t;
 }
 
